@@ -2,6 +2,7 @@ package rules
 
 import (
 	"go/ast"
+	"go/token"
 	"go/types"
 
 	"lachk/core"
@@ -56,28 +57,7 @@ func runC08(c *core.Ctx) {
 			ga := assignsToField(get, s.cache)
 			okG := len(ga) == 1
 			if okG {
-				v := varOf(get, ga[0].RHS)
-				okG = false
-				if v != nil {
-					for _, d := range assignsToVar(get, v) {
-						if d.RHS == nil {
-							continue
-						}
-						src := ast.Unparen(d.RHS)
-						if ta, isTA := src.(*ast.TypeAssertExpr); isTA {
-							src = ast.Unparen(ta.X)
-						}
-						if call, isC := src.(*ast.CallExpr); isC {
-							nm := calleeName(get, call)
-							if nm == "abft.Store.get" && fieldNameOf(get, call.Args[0]) == s.table {
-								okG = true
-							}
-							if nm == "abft.Store.getEpochState" {
-								okG = true
-							}
-						}
-					}
-				}
+				okG = c08filledFromTable(get, ga[0].RHS, ga[0].Pt, s.table, 0)
 			}
 			c.Check(okG, short(s.getter)+" fills the cache only from the table", "T7 Pairing", get.Pos(), "a cache miss decodes the persisted value and caches it", "the getter can cache something that was not read from the table")
 		}
@@ -206,6 +186,117 @@ func runC08(c *core.Ctx) {
 	c.Clause("C08.frame", func() { c08FrameBookkeeping(c) })
 
 	c08Election(c)
+}
+
+// c08filledFromTable: is the value e, used at the point `at` of g, read from the named table on
+// every definition that can supply it? A definition counts as a table read when it is the (possibly
+// type-asserted) result of Store.get(<table>, ·, ·), the result of a same-package helper every return
+// of which is such a read or nil, or a fresh object (&T{} / new(T)) that is handed to
+// Store.get(<table>, ·, obj) as the decoding target on every path from the definition to the use.
+// nil / zero definitions ("nothing stored") are neutral; anything else is not a table read. At least
+// one definition must be a table read.
+func c08filledFromTable(g *core.FuncInfo, e ast.Expr, at core.Point, table string, depth int) bool {
+	if e == nil || depth > 2 {
+		return false
+	}
+	isGet := func(call *ast.CallExpr) bool {
+		return calleeName(g, call) == "abft.Store.get" && len(call.Args) == 3 && fieldNameOf(g, call.Args[0]) == table
+	}
+	// 1 = table read, 0 = neutral, -1 = something else
+	var classify func(src ast.Expr, v *types.Var, defPt core.Point) int
+	classify = func(src ast.Expr, v *types.Var, defPt core.Point) int {
+		src = ast.Unparen(src)
+		if core.IsNil(g.Info(), src) {
+			return 0
+		}
+		if ta, isTA := src.(*ast.TypeAssertExpr); isTA {
+			src = ast.Unparen(ta.X)
+		}
+		if call, isC := src.(*ast.CallExpr); isC {
+			if isGet(call) {
+				return 1
+			}
+			if isCallTo(g, call, "builtin.new") != nil {
+				src = nil // fresh object, see below
+			} else {
+				fn, _ := g.ObjOf(call.Fun).(*types.Func)
+				if fn == nil {
+					if o, _ := g.P.ResolveCallee(g.Info(), call); o != nil {
+						fn, _ = o.(*types.Func)
+					}
+				}
+				h := (*core.FuncInfo)(nil)
+				if fn != nil {
+					h = g.P.FuncOf(fn)
+				}
+				if h == nil || h == g || h.Pkg != g.Pkg {
+					return -1
+				}
+				rets := h.ReturnPoints()
+				good := 0
+				for _, rp := range rets {
+					r := rp.Node().(*ast.ReturnStmt)
+					if len(r.Results) != 1 {
+						return -1
+					}
+					if core.IsNil(h.Info(), r.Results[0]) {
+						continue
+					}
+					if !c08filledFromTable(h, r.Results[0], rp, table, depth+1) {
+						return -1
+					}
+					good++
+				}
+				if good == 0 {
+					return -1
+				}
+				return 1
+			}
+		}
+		fresh := src == nil
+		if u, isU := src.(*ast.UnaryExpr); isU && u.Op == token.AND {
+			if cl, isL := ast.Unparen(u.X).(*ast.CompositeLit); isL && len(cl.Elts) == 0 {
+				fresh = true
+			}
+		}
+		if !fresh || v == nil {
+			return -1
+		}
+		// the fresh object is the decoding target of a read of the table before it is used
+		var reads []core.Point
+		for _, cs := range g.CallsTo("abft.Store.get") {
+			if isGet(cs.Call) && varOf(g, cs.Call.Args[2]) == v {
+				reads = append(reads, cs.Pt)
+			}
+		}
+		if len(reads) == 0 {
+			return -1
+		}
+		if ok, _ := g.MustPassBetween(defPt, reads, at); !ok {
+			return -1
+		}
+		return 1
+	}
+	v := varOf(g, e)
+	if v == nil || v.IsField() {
+		return classify(e, nil, at) == 1
+	}
+	good := 0
+	for _, d := range assignsToVar(g, v) {
+		if d.RHS == nil {
+			if c33isValueSpec(d.Stmt) {
+				continue
+			}
+			return false
+		}
+		switch classify(d.RHS, v, d.Pt) {
+		case 1:
+			good++
+		case -1:
+			return false
+		}
+	}
+	return good > 0
 }
 
 // methodNamedSel: does the selector denote a method (value) with this name?
